@@ -204,3 +204,14 @@ CHECKS["C14"] = dict(
         "error-naming is checked by substring: the message must contain the mutated element's name (definition, field, enum value, method or import id)",
     ],
 )
+
+CHECKS["C05"] = dict(
+    parts=[dict(pkg="lang", run="^TestC05_")], level="translation_validation",
+    quick=dict(shards=8, checks=3, timeout=1500),
+    thorough=dict(shards=16, checks=30, timeout=6000),
+    assumptions=[
+        "names map to distinct Go identifiers and avoid generated method names (the precondition the property states)",
+        "float NaN payloads are compared up to quieting (see C10)",
+        "services are type-checked (must compile) but not executed end-to-end in this check",
+    ],
+)
